@@ -380,9 +380,35 @@ def gen_interp_rt(rng):
     return {"kind": "interp", "text": rendered.encode("utf-8").hex(), "want": norm}
 
 
+def context_chain_cases():
+    """context.* references written at import depth 0, 1, 2 and 3 (alone, inside a string, as a built-in's argument): the root's
+    name is the same at every depth, the current environment's name is the environment the reference is written in"""
+    ctxr = [("name", "context"), ("name", "rootEnvironment"), ("name", "name")]
+    ctxc = [("name", "context"), ("name", "currentEnvironment"), ("name", "name")]
+    out = []
+    for depth in (1, 2, 3):
+        names = ["lvl%d" % i for i in range(depth)]            # deepest first
+        envs, claims = {}, []
+        for i, n in enumerate(names):
+            vals = [("r_" + n, ("sym", ctxr)), ("c_" + n, ("sym", ctxc)),
+                    ("s_" + n, G.norm_interp([("in ", ctxr), ("/", ctxc), ("", None)])),
+                    ("j_" + n, ("join", ("str", "+"), ("arr", [("sym", ctxr), ("sym", ctxc)])))]
+            envs[n] = {"imports": [(names[i - 1], True)] if i else [], "values": vals}
+            claims += ["(const %s %s)" % (G.sx("r_" + n), G.sx("root")), "(const %s %s)" % (G.sx("c_" + n), G.sx(n)),
+                       "(const %s %s)" % (G.sx("s_" + n), G.sx("in root/" + n)), "(const %s %s)" % (G.sx("j_" + n), G.sx("root+" + n))]
+        rvals = [("r_root", ("sym", ctxr)), ("c_root", ("sym", ctxc))]
+        claims += ["(const %s %s)" % (G.sx("r_root"), G.sx("root")), "(const %s %s)" % (G.sx("c_root"), G.sx("root"))]
+        envs["root"] = {"imports": [(names[-1], True)], "values": rvals}
+        c = G.case_from_graph(envs, "root")
+        c["claims"] = claims
+        c["def2"] = {"imports": c["def"]["imports"], "values": list(reversed(rvals))}
+        out.append(c)
+    return out
+
+
 def gen(rng, tier):
     n = 6000 if tier == "thorough" else 500
-    cases = [gen_program(rng, tier == "thorough") for _ in range(n)]
+    cases = context_chain_cases() + [gen_program(rng, tier == "thorough") for _ in range(n)]
     r = rng.fork("interp")
     for _ in range(20000 if tier == "thorough" else 1500):
         cases.append(gen_interp(r) if r.chance(1, 2) else gen_interp_rt(r))
